@@ -2,9 +2,9 @@
    Theorems about the executable model coq/model/Mdl.v (tables regenerated from the source by tools/gen_mdl.py).
    PARTIAL by design: MRV (lxml), float formatting and the grep-based index are covered by the search only. *)
 From Coq Require Import ZArith List String Ascii Bool Lia.
-From Model Require Import PyBase Mdl Mrv Stereo.
+From Model Require Import PyBase Mdl MdlMap Mrv Stereo.
 From Gen Require Import MdlTables MdlSource.
-From Proofs Require Import MdlProofs MdlV2000 MdlV3000 MdlTail MdlFraming MdlFramingExt MdlMeta MdlFile MdlFileMol MdlFileMol3 MdlRxn MdlFileRxn MdlFileRxn3 MdlSessions MdlEscape MdlSourceTie MrvProofs StereoProofs.
+From Proofs Require Import MdlProofs MdlV2000 MdlV3000 MdlTail MdlFraming MdlFramingExt MdlMeta MdlFile MdlFileMol MdlFileMol3 MdlRxn MdlFileRxn MdlFileRxn3 MdlSessions MdlEscape MdlSourceTie MdlMapProofs MrvProofs StereoProofs.
 Import ListNotations.
 Open Scope Z_scope.
 Local Notation length := List.length.
@@ -507,6 +507,54 @@ Theorem C11_mrv_example :
   mrv_write_read true exm_mol exm_hs = Ok exm_parsed.
 Proof. exact (conj exm_hypotheses exm_roundtrip). Qed.
 Print Assumptions C11_mrv_example.
+
+(* ---- between the parsed dict and the container (model coq/model/MdlMap.v): postprocess_parsed_molecule decides the atom numbers,
+        the graph part of create_molecule keys the atoms by them and re-addresses the bonds (no loops, known atoms, no double bond);
+        the construction of the atom object is the parameter mk.  Hence: what the V2000 / V3000 writers wrote comes back as a
+        container graph with the atoms under their ORIGINAL numbers in the ORIGINAL order and exactly the written bonds ---- *)
+Theorem C11_pp_mapping_written : forall ig ms, ms <> [] -> NoDup ms -> Forall (fun m => m <> 0) ms ->
+  pp_mapping false ig (map Some ms) = Ok (ms, 0%nat).
+Proof. exact pp_mapping_written. Qed.
+Print Assumptions C11_pp_mapping_written.
+Theorem C11_pp_mapping_unmapped_and_remap : forall ig,
+  (forall n, pp_mapping false ig (repeat (Some 0) (S n)) = Ok (zrange_from 1 (S n), 0%nat)) /\
+  (forall ms, pp_mapping true ig ms = Ok (zrange_from 1 (length ms), 0%nat)).
+Proof. exact (fun ig => conj (pp_mapping_unmapped ig) (pp_mapping_remap ig)). Qed.
+Print Assumptions C11_pp_mapping_unmapped_and_remap.
+Theorem C11_create_graph_written : forall (X : Type) (mk : patom -> pyres X) nums atoms xs B,
+  NoDup nums -> length nums = length atoms -> Forall2 (fun a x => mk a = Ok x) atoms xs ->
+  Forall (fun b => In (fst (fst b)) nums /\ In (snd (fst b)) nums) B -> simple [] B ->
+  create_graph X mk nums atoms (map (readdress nums) B) = Ok (combine nums xs, B).
+Proof. exact create_graph_written. Qed.
+Print Assumptions C11_create_graph_written.
+Theorem C11_molecule_graph_roundtrip_v2000 : forall (X : Type) (mk : patom -> pyres X) ig g fs xs,
+  Forall2 wf_atom (wm_atoms g) fs -> wm_atoms g <> [] -> (length (wm_atoms g) <= 999)%nat -> (length (wm_bonds g) <= 999)%nat ->
+  NoDup (map wa_num (wm_atoms g)) -> Forall (bond_ok (wm_atoms g)) (wm_bonds g) -> Forall (wedge_ok (wm_atoms g) (wm_bonds g)) (wm_wedge g) ->
+  (length (wm_wedge g) + length (plain_bonds g) = length (wm_bonds g))%nat ->
+  Forall (fun a => wa_num a <> 0) (wm_atoms g) -> simple [] (written_bonds g) ->
+  Forall2 (fun p x => mk p = Ok x) (map2 (expected_atom true) (wm_atoms g) fs) xs ->
+  exists lines, write_mol_v2000 true g = Ok lines /\
+    (do p <- parse_mol_v2000 (map add_nl lines); read_graph mk false ig p) = Ok (combine (map wa_num (wm_atoms g)) xs, written_bonds g).
+Proof. exact molecule_graph_roundtrip_v2000. Qed.
+Print Assumptions C11_molecule_graph_roundtrip_v2000.
+Theorem C11_molecule_graph_roundtrip_v3000 : forall (X : Type) (mk : patom -> pyres X) ig g fs xs,
+  Forall2 wf3_atom (wm_atoms g) fs -> wm_atoms g <> [] -> NoDup (map wa_num (wm_atoms g)) ->
+  Forall (bond_ok (wm_atoms g)) (wm_bonds g) -> Forall (wedge_ok (wm_atoms g) (wm_bonds g)) (wm_wedge g) ->
+  (length (wm_wedge g) + length (plain_bonds g) = length (wm_bonds g))%nat ->
+  Forall (fun a => wa_num a <> 0) (wm_atoms g) -> simple [] (written_bonds g) ->
+  Forall2 (fun p x => mk p = Ok x) (map2 (expected_atom true) (wm_atoms g) fs) xs ->
+  exists lines, write_mol_v3000 true g = Ok lines /\
+    (do p <- parse_mol_v3000 (map add_nl lines); read_graph mk false ig (p3 p)) = Ok (combine (map wa_num (wm_atoms g)) xs, written_bonds g).
+Proof. exact molecule_graph_roundtrip_v3000. Qed.
+Print Assumptions C11_molecule_graph_roundtrip_v3000.
+Theorem C11_graph_roundtrip_example :
+  Forall (fun a => wa_num a <> 0) (wm_atoms ex_mol) /\ simple [] (written_bonds ex_mol) /\
+  exists lines, write_mol_v2000 true ex_mol = Ok lines /\
+    option_map (fun r => (map fst (fst r), snd r))
+      (match (do p <- parse_mol_v2000 (map add_nl lines); read_graph (fun a => Ok a) false true p) with Ok r => Some r | Err _ => None end) =
+    Some ([7; 3; 12], [(7, 3, 1); (12, 3, 8)]).
+Proof. exact graph_roundtrip_example. Qed.
+Print Assumptions C11_graph_roundtrip_example.
 
 (* ---- tie to the SOURCE TEXT: Gen.MdlSource holds the f-strings, column slices, string / integer constants, skipped-exception lists
         and the key-line regular expression of the writers and readers, regenerated on every run; the model's line writers ARE the
